@@ -62,7 +62,7 @@ MODELS["repo:sigpyproc/header.py::Header.mjd_after_nsamps"] = mjd_after_nsamps
 def np_asarray(eng, st, args, kwargs, line):
     eng.assume_tag("A-NP")
     a = args[0]
-    if isinstance(a, VArr):
+    if isinstance(a, (VArr, VArr2)):
         return val(st, a)
     raise OutOfSubset(f"line {line}: np.asarray({a!r})")
 
